@@ -49,6 +49,7 @@ def verify_function(world, reg, c, prop, timeout_ms=20000, mutate=None):
   """Checks the real source of c.target against contract c. Returns FnResult."""
   res = FnResult(c.target)
   t0 = time.time()
+  preload(world, reg)
   try:
     mod, cls, node = world.find(c.target)
   except (KeyError, FileNotFoundError, SyntaxError) as e:
@@ -146,15 +147,19 @@ def verify_function(world, reg, c, prop, timeout_ms=20000, mutate=None):
                   {'text': f'{val.cls} escapes but the contract does not allow it: {val.args}'})
     for k, e in enumerate(c.always):
       it.oblige(f'{name}/always#{k}', it.spec(e, env2, old), 'postcondition-all-exits', {'text': e})
-    # vacuity: this exit must be reachable (cover)
+    # vacuity: this exit must be reachable (cover) under everything assumed on the way
+    if not ex.feasible(path.pc, z3.BoolVal(True)):
+      path.notes.append('DEAD')
     path.notes.append(outcome)
 
   try:
     obls, paths = ex.explore(run)
     res.paths = len(paths)
-    res.covers = sum(1 for p in paths if p.notes)
+    res.covers = sum(1 for p in paths if p.notes and 'DEAD' not in p.notes)
     if res.covers == 0:
       res.status, res.error = 'vacuous', 'no path reaches an exit: requires are contradictory'
+    elif any('DEAD' in p.notes for p in paths):
+      res.status, res.error = 'vacuous', 'some path became infeasible by an assumption (contradictory contract/invariant/hook)'
     for o in obls:
       discharge(o, timeout_ms)
       if o.result == 'sat' and o.model is not None:
@@ -232,9 +237,18 @@ def eval_witness(m, v):
   return repr(v)
 
 
+def preload(world, reg):
+  for target in reg.contracts:
+    try:
+      world.module(target.split('::')[0])
+    except (OSError, SyntaxError):
+      pass
+
+
 def prove_lemma(world, reg, lemma, prop, timeout_ms=20000):
   res = FnResult(f'lemma::{lemma.name}')
   t0 = time.time()
+  preload(world, reg)
   ex = Explorer()
 
   def run(path):
@@ -245,12 +259,18 @@ def prove_lemma(world, reg, lemma, prop, timeout_ms=20000):
       it.assume(it.spec(r, env))
     for k, e in enumerate(lemma.ensures):
       it.oblige(f'{prop}/lemma:{lemma.name}/ensures#{k}', it.spec(e, env), 'lemma', {'text': e})
+    # vacuity: the hypotheses (and the callee contracts used) must be satisfiable
+    # (checked on the pc before the last goal was assumed)
+    if path.obls and not ex.feasible(path.obls[-1].pc, z3.BoolVal(True)):
+      path.notes.append('DEAD')
     path.notes.append('lemma')
 
   try:
     obls, paths = ex.explore(run)
     res.paths = len(paths)
-    res.covers = len(paths)
+    res.covers = sum(1 for p in paths if 'DEAD' not in p.notes)
+    if any('DEAD' in p.notes for p in paths):
+      res.status, res.error = 'vacuous', 'hypotheses (or the callee contracts used) are contradictory'
     # vacuity of the lemma's hypotheses
     for o in obls:
       discharge(o, timeout_ms)
@@ -258,7 +278,7 @@ def prove_lemma(world, reg, lemma, prop, timeout_ms=20000):
         o.info['model'] = model_dict(o.model)
       o.model = None
     res.obligations = obls
-    if any(o.result != 'unsat' for o in obls):
+    if res.status == 'proved' and any(o.result != 'unsat' for o in obls):
       res.status = 'failed'
   except Unsupported as e:
     res.status, res.error = 'unsupported', str(e)
